@@ -430,6 +430,9 @@ func check(id, tier string, keep bool, runsOverride, secsOverride int64) int {
 	if tier == "thorough" {
 		detN = 100
 	}
+	if v, err := strconv.ParseInt(os.Getenv("VERIF_DET_RUNS"), 10, 64); err == nil && v > 0 {
+		detN = v
+	}
 	if detN > runs {
 		detN = runs
 	}
@@ -454,13 +457,23 @@ func check(id, tier string, keep bool, runsOverride, secsOverride int64) int {
 	}
 	nsearch := len(jobs)
 	// determinism probes: the first detN runs again, in separate processes, at other GOMAXPROCS
-	detProcs := []int{1, 4, 16}
+	cycle := []int{1, 4, 16}
 	if sp.Race {
-		detProcs = []int{1, 1, 2} // spin hand-off: more Ps only burn CPU
+		cycle = []int{1, 1, 2} // spin hand-off: more Ps only burn CPU
 	}
-	for pi, p := range detProcs {
+	nDet := 3
+	if tier == "thorough" {
+		nDet = 9
+	}
+	if v, err := strconv.Atoi(os.Getenv("VERIF_DET_PROCS")); err == nil && v > 0 {
+		nDet = v // the large-sample determinism proof (tools/determinism.sh) asks for tens of processes
+	}
+	var detProcs []int
+	for pi := 0; pi < nDet; pi++ {
+		p := cycle[pi%len(cycle)]
+		detProcs = append(detProcs, p)
 		jobs = append(jobs, job{Mode: "search", Tier: tier, Seed: seed, From: 0, To: detN, Deadline: secs, NoRecords: true,
-			DetFrom: 0, DetTo: detN, Reverse: pi == 1})
+			DetFrom: 0, DetTo: detN, Reverse: pi%3 == 1})
 		jprocs = append(jprocs, p)
 	}
 	var results []*workerResult
@@ -695,7 +708,7 @@ func check(id, tier string, keep bool, runsOverride, secsOverride int64) int {
 		"discarded_cases":     agg["discarded"],
 		"signature_counts":    sigCounts,
 		"known_findings_seen": knownSeen,
-		"determinism_selftest": map[string]any{"runs_compared": detChecked, "processes": 3, "gomaxprocs": detProcs, "mismatches": detBad,
+		"determinism_selftest": map[string]any{"runs_compared": detChecked, "processes": len(detProcs), "gomaxprocs": detProcs, "mismatches": detBad,
 			"in_process_repeats_mismatch": agg["self_check_mismatch"]},
 		"components":      components,
 		"workers":         nsearch,
